@@ -40,10 +40,17 @@ func classify(multiline bool, pattern, in string, on, off result, probe func(str
 		}
 		return "unclassified:captures-differ:" + pattern
 	case off.ok && !on.ok:
+		ci := hasFold(re)
+		if lower := strings.ToLower(in); ci && isASCII(in) && in != lower && probe != nil {
+			// the same input in lower case is accepted by both, with upper-case
+			// ASCII letters only the prefilter rejects it
+			if on2, off2 := probe(lower); on2.ok && off2.ok {
+				return "prefilter:ascii-case-fold-miss"
+			}
+		}
 		if isExactLiteral(pattern) && !strings.Contains(in, "\n") {
 			return "exact-match-fast-path:false-negative"
 		}
-		ci := hasFold(re)
 		lits := mandatoryLiterals(re, ci)
 		if len(lits) > 0 {
 			cmp := in
@@ -70,13 +77,6 @@ func classify(multiline bool, pattern, in string, on, off result, probe func(str
 		}
 		if trieShape(re) {
 			return "prefilter:trie-prefix-joined-to-non-adjacent-literal"
-		}
-		if lower := strings.ToLower(in); ci && isASCII(in) && in != lower && probe != nil {
-			// the same input in lower case is accepted by both, with upper-case
-			// ASCII letters only the prefilter rejects it
-			if on2, off2 := probe(lower); on2.ok && off2.ok {
-				return "prefilter:ascii-case-fold-miss"
-			}
 		}
 		return "unclassified:false-negative:" + pattern
 	case !off.ok && on.ok:
